@@ -10,7 +10,7 @@ from core import Ob, HELD, VIOLATED, INCONCLUSIVE, KNOWN
 from execu import Exec, State, Refuse, CallRec, VOver
 from values import *
 import models
-import panicmodels  # noqa: registers the panic-capable std callees
+import panicmodels  # noqa: panic-capable std callees, enabled per audit via extra_models=panicmodels.PANIC_MODELS
 import vc
 
 
